@@ -164,6 +164,9 @@ def check_callbacks(ctx):
     cg = callgraph.get(repo)
     n_cb = 0
     classes = [c for c in repo.classes.values() if c.is_subclass_of("SecsHandler")]
+    from . import c03
+
+    catalogue = c03.function_classes(repo)
     for cls in classes:
         for name, meth in cls.methods.items():
             m = SF_NAME.match(name)
@@ -188,6 +191,13 @@ def check_callbacks(ctx):
             # inline replies
             cfg = cfg_of(meth.node)
             inl = [(n, c) for n in cfg.real_nodes() for c in n.calls if call_name(c) in ("self.send_response", "self.protocol.send_response")]
+            # a primary that expects a reply is answered on every path: a value is returned or the reply was sent inline
+            pcls = catalogue.get((S, F))
+            if pcls is not None and repo.const(pcls, "_has_reply"):
+                answering = [x for x in cfg.real_nodes() if isinstance(x.ast, ast.Return) and x.ast.value is not None and not (isinstance(x.ast.value, ast.Constant) and x.ast.value.value is None)] + [n for n, _ in inl]
+                silent = cfg.path_exists(cfg.entry, cfg.exit, avoid=answering, no_exc=True)
+                ctx.ob("C08.T1", q, not silent, f"every path of the S{S}F{F} callback produces the reply" if not silent else
+                       f"a path of the S{S}F{F} callback ends without returning a reply (returns None): the primary's W-bit request is never answered and the peer runs into its T3", key="always-replies", where=meth.where)
             if inl:
                 param = meth.node.args.args[2].arg
                 cnt = cfg.count_on_paths(lambda x: any(x is n for n, _ in inl), cfg.entry, cfg.exit, no_exc=True)
